@@ -538,7 +538,7 @@ def run_case(seed, task, tier):
     idx = task['case']
     refs = case_refs(seed, idx)
     out = {'executions': 0, 'signatures': [], 'violations': [], 'probes': {}, 'faults': {}, 'steps': 0}
-    n_examples = 10 if tier == 'quick' else 30
+    n_examples = 25 if tier == 'quick' else 50
     trace_box = [None]
     stats_box = []
     with cvcase.Scratch('c12_') as wd:
